@@ -173,6 +173,9 @@ func (r *Report) Finish(verifDir string, replayKey string) int {
 		}
 	}
 	for k := range open {
+		if strings.Contains(k, "/386:") && r.Tier != "thorough" {
+			continue // decided by the 32-bit pass, which only the thorough tier runs
+		}
 		if !seenOpen[k] {
 			fmt.Printf("NOTE: property=%s open finding no longer reproduces: %s\n", r.Prop, k)
 		}
